@@ -86,7 +86,9 @@ Theorem aug_flip_inverse : forall chain j1 x y fuel,
   exists x' y', aug_flip fuel r pred j1 x y n = Some (x', y') /\ length x' = n /\ length y' = n /\
     PIh x' y' None /\ (exists j, (j < n)%nat /\ getn y' j n = r) /\
     getn y' j1 n <> n /\ (forall j, getn y j n <> n -> getn y' j n <> n) /\
-    (forall j, getn y' j n = getn y j n \/ In (getn y' j n) chain).
+    (forall j, getn y' j n = getn y j n \/ In (getn y' j n) chain) /\
+    (forall j, getn y' j n = getn y j n \/
+               (getn y' j n = getn pred j n /\ (j = j1 \/ exists i, In i chain /\ i <> r /\ j = getn x i n))).
 Proof.
   induction chain as [|i rest IH]; intros j1 x y fuel ND Lx Ly OK Hf PI Fr; [destruct OK|].
   cbn [chain_ok] in OK. destruct OK as [Hj [Hp [Hi D]]].
@@ -108,12 +110,13 @@ Proof.
   - (* last link: i = r, the free row *)
     replace (i =? r)%nat with true by (symmetry; apply Nat.eqb_eq; exact D).
     eexists _, _. split; [reflexivity|]. split; [rewrite upd_length; auto|]. split; [rewrite upd_length; auto|].
-    split; [|split; [|split; [|split]]].
+    split; [|split; [|split; [|split; [|split]]]].
     + apply Step. intros j Hj0 _ _ Ey. exfalso. apply (Fr j Hj0). rewrite Ey. exact D.
     + exists j1. split; auto. rewrite Yj, Nat.eqb_refl. exact D.
     + rewrite Yj, Nat.eqb_refl. lia.
     + intros j Hn. rewrite Yj. destruct (j =? j1)%nat; [lia|exact Hn].
     + intros j. rewrite Yj. destruct (j =? j1)%nat; [right; left; reflexivity|left; reflexivity].
+    + intros j. rewrite Yj. destruct (Nat.eqb_spec j j1) as [->|NE]; [right; split; [reflexivity|left; reflexivity]|left; reflexivity].
   - destruct D as [Nr OK']. destruct (Nat.eqb_spec i r) as [E|_]; [contradiction|].
     assert (OK2 : chain_ok r n pred (upd x i j1) (getn x i n) (i2 :: rest2)).
     { apply (chain_ok_ext r n pred x); auto. intros k Hk. rewrite Xi.
@@ -124,11 +127,16 @@ Proof.
     assert (Fr2 : free n (upd y j1 i) r).
     { intros j Hj0. rewrite Yj. destruct (j =? j1)%nat; [exact Nr|apply Fr; auto]. }
     destruct (IH (getn x i n) (upd x i j1) (upd y j1 i) f ND' ltac:(rewrite upd_length; auto) ltac:(rewrite upd_length; auto) OK2
-                ltac:(cbn [length] in *; lia) PI2 Fr2) as [x' [y' [E [Lx' [Ly' [PI' [Hr [_ [Keep Src]]]]]]]]].
-    exists x', y'. split; [exact E|]. split; auto. split; auto. split; auto. split; auto. split; [|split].
+                ltac:(cbn [length] in *; lia) PI2 Fr2) as [x' [y' [E [Lx' [Ly' [PI' [Hr [_ [Keep [Src Src2]]]]]]]]]].
+    exists x', y'. split; [exact E|]. split; auto. split; auto. split; auto. split; auto. split; [|split; [|split]].
     + apply Keep. rewrite Yj, Nat.eqb_refl. lia.
     + intros j Hn. apply Keep. rewrite Yj. destruct (j =? j1)%nat; [lia|exact Hn].
     + intros j. destruct (Src j) as [H|H]; [|right; right; exact H].
       rewrite H, Yj. destruct (j =? j1)%nat; [right; left; reflexivity|left; reflexivity].
+    + intros j. destruct (Src2 j) as [H|[H1 [H2|[i' [Hi' [Ni' Ej]]]]]].
+      * rewrite H, Yj. destruct (Nat.eqb_spec j j1) as [->|NE]; [right; split; [reflexivity|left; reflexivity]|left; reflexivity].
+      * right. split; [exact H1|]. right. exists i. split; [left; reflexivity|]. split; [exact Nr|exact H2].
+      * right. split; [exact H1|]. right. exists i'. split; [right; exact Hi'|]. split; [exact Ni'|].
+        rewrite Ej, Xi. destruct (Nat.eqb_spec i' i) as [->|NE]; [contradiction|reflexivity].
 Qed.
 End FlipInv.
